@@ -691,6 +691,12 @@ def r_sentence_loop(repo, rep, R, table_info):
                               'finalizer args are tokens=%s categories=%s' % (show(d_tok or C(None)), show(d_cat or C(None))))
                 rep.check(okz, R, w(loop), 'run:loop:zip', 'trees and scores of a sentence are paired positionally from buffers created for that sentence (%s)' % detail,
                           'the result of a parsed sentence is %s' % detail)
+            else:
+                # neither too long nor handed to the search: an answer made up in the glue code (no beam, no allowed roots,
+                # no unary rules, no category dictionary, another score)
+                rep.check(False, R, w(loop), 'run:loop:every-sentence-searched', '',
+                          'a sentence that is not too long gets a result without parse_sentence being called: %s (under %s)'
+                          % (show(v)[:120], '; '.join('%s%s' % ('' if pol else 'not ', show(c)[:50]) for c, pol, _ in st.conds[-2:])))
     rep.check(counts and all(c == 1 for c in counts), R, w(loop), 'run:loop:one-result',
               'every non-raising path through the sentence loop appends exactly one result list (%d paths)' % len(counts),
               'append counts per path through the sentence loop: %s' % sorted(set(counts)))
